@@ -285,6 +285,9 @@ class IRGenerator:
         self._env_by_namespace = {}
         # Used to check for circular references.
         self._resolution_in_progress = set()  # Set[DataType]
+        # Nullable references made while some aliases were not yet populated;
+        # they are checked again once every alias has its source type.
+        self._nullable_refs = []  # List[Tuple[Nullable, Tuple[int, str]]]
 
         self._item_by_canonical_name = {}
 
@@ -744,6 +747,15 @@ class IRGenerator:
                 self._resolution_in_progress.remove(data_type)
 
         assert len(self._resolution_in_progress) == 0
+
+        # An alias that was not populated yet when it was referenced hid what it
+        # stands for, whichever order the definitions were given in.
+        for nullable, loc in self._nullable_refs:
+            unwrapped_dt, _ = unwrap_aliases(nullable.data_type)
+            if isinstance(unwrapped_dt, Nullable):
+                raise InvalidSpec(
+                    'Cannot mark reference to nullable type as nullable.',
+                    *loc)
 
     def _populate_struct_type_attributes(self, env, data_type):
         """
@@ -1266,6 +1278,7 @@ class IRGenerator:
                     'Cannot mark reference to nullable type as nullable.',
                     *loc)
             data_type = Nullable(data_type)
+            self._nullable_refs.append((data_type, loc))
 
         return data_type
 
